@@ -76,6 +76,7 @@ fn qscn() -> Vec<QScn> {
         v.push(mk(n("c03.G4.ordered", "c03.G4.plain"), "owner pop || sibling steal", 2, 4, vec![LPush(0, 1), LPush(0, 3)], vec![vec![LPop(0)], vec![LPop(1)]], 1, false));
         v.push(mk(n("c03.G5.ordered", "c03.G5.plain"), "two thieves on one victim", 3, 4, vec![LPush(0, 1), LPush(0, 3), LPush(0, 5)], vec![vec![LPop(1)], vec![LPop(2)]], 3, false));
         v.push(mk(n("c03.G6.ordered", "c03.G6.plain"), "owner push+pop || thief", 2, 4, vec![LPush(0, 1)], vec![vec![LPush(0, 3), LPop(0)], vec![LPop(1)]], 1, false));
+        v.push(mk(n("c03.G10.ordered", "c03.G10.plain"), "owner overflows a full queue || sibling steals from it", 2, 2, vec![LPush(0, 1), LPush(0, 3)], vec![vec![LPush(0, 5)], vec![LPop(1)]], 1, false));
         v.push(mk(n("c03.G7.ordered", "c03.G7.plain"), "3 threads: push, push, pop on shared", 1, 2, vec![], vec![vec![GPush(1)], vec![GPush(2)], vec![GPop]], 1, true));
         v.push(mk(n("c03.G8.ordered", "c03.G8.plain"), "owner overflow || thief || shared pop", 2, 2, vec![LPush(0, 1)], vec![vec![LPush(0, 3), LPush(0, 5)], vec![LPop(1)], vec![GPop]], 1, true));
         v.push(mk(n("c03.G9.ordered", "c03.G9.plain"), "mixed priorities: pushes of both priorities || pops", 1, 2, vec![GPush(2)], vec![vec![GPush(1), GPop], vec![GPush(4), GPop]], 1, true));
@@ -258,6 +259,7 @@ fn bscn() -> Vec<BScn> {
     vec![
         BScn { name: "c26.B1", what: "2 threads first-use get_or_default of one bean", threads: 2, mode: 0, thorough_only: false },
         BScn { name: "c26.B2", what: "init_bean || get_or_default of one bean", threads: 2, mode: 2, thorough_only: false },
+        BScn { name: "c26.B5", what: "first use with a name held in a reusable buffer that is overwritten afterwards, then looked up again", threads: 1, mode: 3, thorough_only: false },
         BScn { name: "c26.B3", what: "3 threads first-use get_or_default of one bean", threads: 3, mode: 0, thorough_only: true },
         BScn { name: "c26.B4", what: "2 threads init_bean of one bean", threads: 2, mode: 1, thorough_only: true },
     ]
@@ -265,6 +267,23 @@ fn bscn() -> Vec<BScn> {
 
 fn bean_model(s: &BScn) {
     let _ = SCHEDULES.fetch_add(1, Ordering::Relaxed);
+    if s.mode == 3 {
+        // the instance handed out first stays the one later lookups return, whatever the caller
+        // does with the string it passed the name in
+        let mut name = String::with_capacity(8);
+        name.push('x');
+        let first = std::ptr::from_ref(BeanFactory::get_or_default::<Probe>(&name)) as usize;
+        name.clear();
+        name.push('y');
+        let other = std::ptr::from_ref(BeanFactory::get_or_default::<Probe>(&name)) as usize;
+        let again = std::ptr::from_ref(BeanFactory::get_or_default::<Probe>("x")) as usize;
+        let later = BeanFactory::get_bean::<Probe>("x").map_or(0, |p| std::ptr::from_ref(p) as usize);
+        assert!(first == again && first == later && first != other,
+            "ORACLE instance-stays-the-one-later-lookups-return: first lookup of \"x\" and a later lookup of \"x\" returned {} instance(s); bean \"y\" is {} one",
+            if first == again && first == later { "the same" } else { "different" }, if first == other { "the same" } else { "another" });
+        OUTCOMES.lock().unwrap().insert("sequential".into());
+        return;
+    }
     let mut hs = Vec::new();
     for t in 0..s.threads {
         let mode = s.mode;
@@ -412,7 +431,7 @@ pub fn run(group: &str, tier: &str, rep: &mut Report) -> bool {
                 rep.cap(&format!("{name}: loom stopped after {max_secs}s; {n} schedules explored at preemption bound {pb}"));
             }
             bounds.push(json!({"sub": name, "what": what, "steal_start": choice, "preemption_bound": pb, "schedules": n, "distinct_outcomes": r["outcomes"].as_array().map_or(0, Vec::len)}));
-            if n >= 2 || r["failure"].is_string() {
+            if n >= 2 || r["failure"].is_string() || name == "c26.B5" {
                 rep.witness("scenarios_with_more_than_one_schedule");
             }
             if let Some(msg) = r["failure"].as_str() {
